@@ -8,8 +8,23 @@ package e2elife
 // The policy creates one SubConn per Controller address, keeps them connected
 // (Connect on creation and whenever they report IDLE), records every state
 // change, and publishes pickers only when the harness says so
-// (Controller.Publish). Every published picker is stamped with its generation;
-// each Pick call is logged and answered by Controller.PickFn.
+// (Controller.Publish / PublishOpts). Every publish (UpdateState call) is a new
+// generation; the connectivity state reported with it is the caller's free
+// choice (it is not derived from what the picker answers - like policies that
+// aggregate to CONNECTING while their pickers serve some RPCs), and a publish
+// may hand the channel the previously published picker OBJECT again (a
+// stateful picker: its answers come from Controller.PickFn at Pick time).
+// A picker object carries the generation of its latest publish; each Pick call
+// is logged with that stamp and answered by Controller.PickFn.
+//
+// Generation stamps and object reuse: a fresh object is stamped once, so a
+// Pick call on it is attributed exactly. A re-published object is re-stamped
+// right before UpdateState is called, so a Pick call that the channel issued
+// through the older generation but that reads the stamp after the bump would
+// be attributed to the newer one. PublishOpts{Reuse: true} must therefore be
+// called at a quiescent moment (synctest.Wait() returned and nothing was
+// started since): then no goroutine is between loading the channel's picker
+// and calling Pick, and every stamp is exact. pickrig.Drive enforces this.
 
 import (
 	"fmt"
@@ -45,8 +60,27 @@ type SCState struct {
 type PickLog struct {
 	Seq int
 	Gen int
+	Obj int    // picker object the call was made on (objects are numbered from 1)
 	RPC string // harness RPC id from the outgoing metadata
 	At  time.Time
+}
+
+// PubLog is one publish (UpdateState call) of the policy.
+type PubLog struct {
+	Gen     int // generation number = index+1 in Pubs()
+	Seq     int // event counter right before UpdateState was called
+	DoneSeq int // event counter right after UpdateState returned (0: still inside)
+	State   connectivity.State
+	Obj     int  // picker object handed to the channel
+	Reused  bool // Obj is the object of the previous publish
+}
+
+// PubOpts are the choices of one publish.
+type PubOpts struct {
+	State connectivity.State
+	// Reuse hands the channel the picker object of the previous publish again
+	// (ignored for the first publish). See the package comment on stamps.
+	Reuse bool
 }
 
 // Controller is the harness side of one channel's plan policy.
@@ -69,6 +103,9 @@ type Controller struct {
 	seq    int
 	gen    int
 	picks  []PickLog
+	pubs   []PubLog
+	last   *planPicker // object of the latest publish
+	objs   int
 	closed bool
 }
 
@@ -145,9 +182,23 @@ func (c *Controller) NextSeq() int {
 	return c.seq
 }
 
-// Publish publishes a new picker generation with the given channel state and
-// returns its generation number (0 if the policy is not built or closed).
+// Pubs returns a copy of the publish log.
+func (c *Controller) Pubs() []PubLog {
+	c.mu.Lock()
+	defer c.mu.Unlock()
+	return append([]PubLog(nil), c.pubs...)
+}
+
+// Publish publishes a new picker generation (a fresh picker object) with the
+// given channel state and returns its generation number (0 if the policy is
+// not built or closed).
 func (c *Controller) Publish(s connectivity.State) int {
+	return c.PublishOpts(PubOpts{State: s})
+}
+
+// PublishOpts is Publish with all choices: every call is one generation,
+// whether or not the picker object is new.
+func (c *Controller) PublishOpts(o PubOpts) int {
 	c.mu.Lock()
 	if c.cc == nil || c.closed {
 		c.mu.Unlock()
@@ -155,28 +206,47 @@ func (c *Controller) Publish(s connectivity.State) int {
 	}
 	c.gen++
 	g := c.gen
+	p := c.last
+	reused := o.Reuse && p != nil
+	if reused {
+		p.gen = g // the stamp is per publish, not per object
+	} else {
+		c.objs++
+		p = &planPicker{c: c, gen: g, obj: c.objs}
+		c.last = p
+	}
+	c.seq++
+	c.pubs = append(c.pubs, PubLog{Gen: g, Seq: c.seq, State: o.State, Obj: p.obj, Reused: reused})
 	cc := c.cc
 	c.mu.Unlock()
-	cc.UpdateState(balancer.State{ConnectivityState: s, Picker: &planPicker{c: c, gen: g}})
+	cc.UpdateState(balancer.State{ConnectivityState: o.State, Picker: p})
+	c.mu.Lock()
+	c.seq++
+	c.pubs[g-1].DoneSeq = c.seq
+	c.mu.Unlock()
 	return g
 }
 
+// planPicker is stateful: its answers come from Controller.PickFn at Pick
+// time and its generation stamp (guarded by c.mu) is that of its latest publish.
 type planPicker struct {
 	c   *Controller
 	gen int
+	obj int
 }
 
 func (p *planPicker) Pick(info balancer.PickInfo) (balancer.PickResult, error) {
 	c := p.c
 	c.mu.Lock()
+	gen := p.gen
 	c.seq++
-	c.picks = append(c.picks, PickLog{Seq: c.seq, Gen: p.gen, RPC: OutgoingID(info.Ctx), At: time.Now()})
+	c.picks = append(c.picks, PickLog{Seq: c.seq, Gen: gen, Obj: p.obj, RPC: OutgoingID(info.Ctx), At: time.Now()})
 	fn := c.PickFn
 	c.mu.Unlock()
 	if fn == nil {
 		return balancer.PickResult{}, balancer.ErrNoSubConnAvailable
 	}
-	return fn(c, p.gen, info)
+	return fn(c, gen, info)
 }
 
 type planBuilder struct{}
